@@ -425,6 +425,14 @@ def run(ctx):
                         'the flusher %s: pending operations can be skipped (also by the final flush) or reordered' % ('returns early' if isinstance(n, ast.Return) else 'reorders')))
     cd.evaluations += 3
 
+    # the flusher thread outlives a failing operation: no step of its own (an except-variable read after its handler) can end it
+    from .common import except_names_read_outside as _enro
+    stale = [(m_, h_, y_) for m_ in flusher_side for h_, y_ in _enro(m_.node)]
+    cd.instance('flusher: no name bound by `except .. as` is read outside its handler', flush.qualname, not stale)
+    for m_, h_, y_ in stale[:1]:
+        res.add(Finding('C12', 'C12.d', 'R-CONTAIN', m_.file, m_.qualname, y_.lineno, '%s read after its handler' % h_.name,
+                        '`%s` is bound by `except ... as %s` and read after that handler ended (Python unbinds it there): the read raises '
+                        'UnboundLocalError in the flusher thread, which dies - every operation requested afterwards is never applied' % (h_.name, h_.name)))
     # ---------------- C12.e final flush
     dt = doms[target.name]
     ok_final, why = final_flush(target, flush)
